@@ -41,6 +41,10 @@ func tstate(mode int) {
 		if inv.signals > 0 {
 			if inv.panicNil > 0 && inv.signals == inv.panicNil {
 				vassert(failure, "C02: panic(nil) in user code was not treated as a failure")
+			} else if inv.customSignals > 0 && inv.rawPanics == 0 && inv.cleanupInvalid > 0 {
+				// same mechanism, other source of the panic in flight: a failure signalled on the inner T
+				// of a Custom generator travels to the test case as a panic
+				vassert(failure, "C02: a failure signalled inside a Custom generator function was superseded by invalid data (skip/overrun) raised in a cleanup callback and the failure was lost")
 			} else if inv.rawPanics > 0 && inv.cleanupInvalid > 0 {
 				// Go semantics: a panic raised by a deferred call supersedes the one in flight
 				vassert(failure, "C02: a panic in user code was superseded by invalid data (skip/overrun) raised in a cleanup callback and the failure was lost")
